@@ -81,6 +81,7 @@ pub enum Op {
 
 /// Drain consumption plan: take `front` items from the front and `back` from the back.
 /// mode 0: fronts first, 1: backs first, 2: alternating (front first). len() is read after every step.
+/// mode 3 / 4: as mode 0, then the rest is consumed through `Iterator::last()` / `Iterator::count()`.
 #[derive(Debug, Clone, Copy, PartialEq)]
 pub struct Plan {
     pub front: usize,
@@ -99,7 +100,7 @@ impl Plan {
     pub fn steps(&self) -> Vec<bool> {
         let mut v = Vec::new();
         match self.mode {
-            0 => {
+            0 | 3 | 4 => {
                 v.extend(std::iter::repeat(true).take(self.front));
                 v.extend(std::iter::repeat(false).take(self.back));
             }
@@ -164,6 +165,11 @@ fn model_drain(items: Vec<u32>, plan: &Plan) -> Vec<String> {
     for front in plan.steps() {
         let x = if front { q.pop_front() } else { q.pop_back() };
         tr.push(format!("{}={:?} len={}", if front { "next" } else { "next_back" }, x, q.len()));
+    }
+    match plan.mode {
+        3 => tr.push(format!("last={:?}", q.back())),
+        4 => tr.push(format!("count={}", q.len())),
+        _ => {}
     }
     tr
 }
@@ -253,6 +259,16 @@ fn real_drain<T: Cell, D: DoubleEndedIterator<Item = T> + ExactSizeIterator>(mut
         drop(x);
         tr.push(format!("{}={:?} len={}", if front { "next" } else { "next_back" }, v, d.len()));
     }
+    match plan.mode {
+        3 => {
+            let x = d.last();
+            let v = x.as_ref().map(|t| t.val());
+            drop(x);
+            tr.push(format!("last={:?}", v));
+        }
+        4 => tr.push(format!("count={}", d.count())),
+        _ => {}
+    }
     tr
 }
 
@@ -305,6 +321,12 @@ fn plans(n: usize, full: bool) -> Vec<Plan> {
                 }
             }
         }
+        for front in 0..=n {
+            for back in 0..=(n - front).min(1) {
+                v.push(Plan { front, back, mode: 3 });
+                v.push(Plan { front, back, mode: 4 });
+            }
+        }
     } else {
         v.push(Plan { front: 0, back: 0, mode: 0 });
         if n > 0 {
@@ -314,6 +336,7 @@ fn plans(n: usize, full: bool) -> Vec<Plan> {
         }
         if n > 1 {
             v.push(Plan { front: 1, back: 1, mode: 2 });
+            v.push(Plan { front: 1, back: 0, mode: 3 });
         }
     }
     v
@@ -518,6 +541,11 @@ fn zst_drain<D: DoubleEndedIterator<Item = Zst> + ExactSizeIterator>(mut d: D, p
         drop(x);
         tr.push(format!("{}={} len={}", if front { "next" } else { "next_back" }, some, d.len()));
     }
+    match plan.mode {
+        3 => tr.push(format!("last={}", d.last().is_some())),
+        4 => tr.push(format!("count={}", d.count())),
+        _ => {}
+    }
     tr
 }
 
@@ -526,6 +554,7 @@ fn zst_trace(tr: Vec<String>) -> Vec<String> {
     tr.into_iter()
         .map(|s| match (s.find('='), s.find(" len=")) {
             (Some(a), Some(b)) if a < b => format!("{}={}{}", &s[..a], s[a + 1..b].starts_with("Some"), &s[b..]),
+            (Some(a), None) if s.starts_with("last=") => format!("last={}", s[a + 1..].starts_with("Some")),
             _ => s,
         })
         .collect()
